@@ -229,6 +229,10 @@ pub struct ConnPlan {
     pub fail_write_at: Option<(usize, IoKind)>,
     /// bytes the peer sends unsolicited right after the connection is up: (delay_ms, bytes)
     pub unsolicited: Vec<(u32, Vec<u8>)>,
+    /// back-pressure: after this many bytes the transport accepts nothing for this many ms (only
+    /// meaningful with a peer that never answers: it then sees requests in fragments)
+    #[serde(default)]
+    pub write_stall: Option<(u32, u32)>,
 }
 
 /// Everything the peer saw and did, for the oracles
@@ -799,6 +803,9 @@ pub fn run_client(case: &CliCase) -> CliRun {
                         v
                     };
                     let (io, ioh) = sim::script_io(script, plan.fail_write_at, Some(Box::new(peer)));
+                    if let Some((after, ms)) = plan.write_stall {
+                        ioh.set_write_stall(after as usize, Duration::from_millis(ms as u64));
+                    }
                     *cio.lock().unwrap() = Some(ioh);
                     log(LoopEvent::Connected(k));
                     let end = sess.run(Box::new(io)).await;
